@@ -603,7 +603,7 @@ func (s *Sim) DrawStoreFaultOp(t *rapid.T) *StoreFaultOp {
 			}}
 	case "lock-output":
 		lc := live[rapid.IntRange(0, len(live)-1).Draw(t, "c10lockTarget")]
-		id := lockID(rapid.IntRange(0, 2).Draw(t, "c10lockid"))
+		id := lockID(rapid.IntRange(0, 3).Draw(t, "c10lockid"))
 		class := "new-lease"
 		if cur, ok := s.L.Leases[lc.op]; ok && now.Before(cur.Expiry) {
 			id = cur.ID // extend under the same identifier
